@@ -55,6 +55,7 @@ type Options struct {
 	HeapKeys    map[string]string          // heap keys (with sorts) seen in a previous run: pre-registered so loop frame candidates cover them
 	ServiceLoops map[string]bool           // loop keys that are intentionally unbounded service loops (no variant obligation)
 	SeqCalls     bool                      // callers assume no other thread runs between a call and the callee's lock acquisition (locked(e) at call sites = pre-call state)
+	NoIndexCOV   bool                      // disable the change of variable for slice-index binders in spec quantifiers
 }
 
 // lockHavoc records an owned field forgotten at a lock acquisition.
@@ -173,7 +174,9 @@ func (fv *funcVerifier) oblID(kind, desc string) string {
 
 // assert records an obligation and then assumes it.
 func (fv *funcVerifier) assert(st *State, kind, desc string, pos token.Pos, goal smt.Term) *Oblig {
-	if st.dead() || goal.IsTrue() {
+	// a postcondition that folds to true (ghost counters with literal values) stays an
+	// obligation, so that it is counted and a later change that breaks it has a named predecessor
+	if st.dead() || (goal.IsTrue() && kind != "ensures") {
 		return nil
 	}
 	o := &Oblig{ID: fv.oblID(kind, desc), Kind: kind, Func: fv.fi.Key, Desc: desc, nAssume: len(fv.assumptions),
